@@ -359,6 +359,50 @@ theorem alloc_proportional_lz4 (f : Features) (cached : Option ResultMeta) (ext 
     (decode f cached (some (lz4Decomp ext)) bs uni).2.alloc ≤ 2 * (256 * bs.length + 64) + 131070 :=
   alloc_proportional_compressed f cached (lz4Decomp ext) 255 64 (lz4Decomp_bounded ext) bs uni
 
+/-- The Snappy path of `decompress` (`snappyDecomp`: the size guard of fix bd65dae in front of the external decoder,
+which allocates the declared size and never returns more) satisfies the expansion hypothesis with `64·len + 64`. -/
+theorem snappyDecomp_bounded (ext : Bytes → Option Bytes) (b b' : Bytes) (h : snappyDecomp ext b = some b') :
+    b'.length ≤ 64 * b.length + 64 := by
+  unfold snappyDecomp at h
+  split at h
+  · rename_i hg
+    unfold snappyGuard at hg
+    cases hl : snappyLen b with
+    | none => simp [hl] at hg
+    | some n =>
+      simp only [hl, decide_eq_true_eq] at hg
+      cases he : ext b with
+      | none => simp [he] at h
+      | some out =>
+        simp only [he, hl, Option.filter, Option.getD_some] at h
+        split at h
+        · rename_i hle
+          injection h with h; subst h
+          simp only [decide_eq_true_eq] at hle
+          omega
+        · cases h
+  · cases h
+
+/-- Allocation on a Snappy connection, for ANY block decoder: `≤ 2·(65·len + 64) + 131070` slots; what the guard
+lets `decompress_vec` reserve up front is itself at most `64·len + 64` bytes. -/
+theorem alloc_proportional_snappy (f : Features) (cached : Option ResultMeta) (ext : Bytes → Option Bytes) (bs : Bytes)
+    (uni : List (Bytes × UCls)) :
+    (decode f cached (some (snappyDecomp ext)) bs uni).2.alloc ≤ 2 * (65 * bs.length + 64) + 131070 :=
+  alloc_proportional_compressed f cached (snappyDecomp ext) 64 64 (snappyDecomp_bounded ext) bs uni
+
+theorem snappy_reservation_bounded (body : Bytes) (n : Nat) (hg : snappyGuard body = true)
+    (hl : snappyLen body = some n) : n ≤ 64 * body.length + 64 := by
+  unfold snappyGuard at hg
+  simp only [hl, decide_eq_true_eq] at hg
+  exact hg
+
+/-- non-vacuity: the reproducer shape of bd65dae for Snappy (a preamble declaring 256 MiB in front of 2 bytes) is
+refused by the guard; an honest preamble passes. -/
+example : snappyGuard [0x80, 0x80, 0x80, 0x80, 0x01, 0x00, 0x61] = false := by decide
+example : snappyLen [0x80, 0x80, 0x80, 0x80, 0x01, 0x00, 0x61] = some (1 <<< 28) := by decide
+example : snappyGuard [0x01, 0x00, 0x61] = true := by decide
+example : snappyLen [0x80, 0x80, 0x80, 0x80, 0x80, 0x01] = none := by decide
+
 /-! ### depth, measured on what the parsers return
 
 `depth_bounded` below bounds the ghost counter, which mirrors the code's own limit checks.  Independently of any
